@@ -30,7 +30,7 @@ and barriered). C19: source/destination port swapped in a convertor. C01: string
 `<= 255` in StringInfoElement.GetLength. Reverting each `fix:` commit is killed by the check that found
 the defect (its replay is in replays/fixed/).
 """
-nb = {k: [0, 0] for k in range(1, 9)}
+nb = {k: [0, 0] for k in range(1, 10)}
 for r in rows:
     rid = r.split("|")[1]
     mm = re.search(r"-r(\d)-", rid)
@@ -56,12 +56,15 @@ table = ("Changes written by sub-agents that saw only the property text (section
          "already breaks the statement: section 6.1, D16-D22, and section 6.4). Ids with -r8- are from an eighth round, one change\n"
          "per property again, of kinds not used before: a timeout or deadline added around a blocking hand-over, a log statement\n"
          "with a side effect or an unsynchronised read, a limit or a \"cannot happen\" early return added to one of several equivalent\n"
-         "paths, a default of the hosting runtime relied upon (findings of that round: section 6.5). `caught by` names the check(s) whose quick tier\n"
+         "paths, a default of the hosting runtime relied upon (findings of that round: section 6.5). Ids with -r9- are from a ninth round\n"
+         "(one change per property; asked for state shared between two objects of one kind, the order of independent public calls,\n"
+         "keys that collide only for rare value pairs, time arithmetic across boundaries, aliasing appends, values at the edge of their\n"
+         "range). `caught by` names the check(s) whose quick tier\n"
          "reports a VIOLATION with the patch applied to /repo; \"as built\" means some check caught it before anything was\n"
          "changed, \"after strengthening\" that every check missed it at first and the owning check was extended (what was\n"
          "added is in the section 3 notes and in meta.json). Caught as built: round 1 %d of %d, round 2 %d of %d, round 3\n"
-         "%d of %d, round 4 %d of %d, round 5 %d of %d, round 6 %d of %d, round 7 %d of %d, round 8 %d of %d; all of the %d but the two marked \"on purpose\" and the seven that stopped being faults when defects were repaired are caught by the checks as they are now (`tools/regress_mutants.sh` re-runs every filed change\n"
-         "against the checks recorded for it).\n\n" % (nb[1][1], nb[1][0], nb[2][1], nb[2][0], nb[3][1], nb[3][0], nb[4][1], nb[4][0], nb[5][1], nb[5][0], nb[6][1], nb[6][0], nb[7][1], nb[7][0], nb[8][1], nb[8][0], len(rows)) +
+         "%d of %d, round 4 %d of %d, round 5 %d of %d, round 6 %d of %d, round 7 %d of %d, round 8 %d of %d, round 9 %d of %d; all of the %d but the two marked \"on purpose\" and the eleven that stopped being faults when defects were repaired are caught by the checks as they are now (`tools/regress_mutants.sh` re-runs every filed change\n"
+         "against the checks recorded for it).\n\n" % (nb[1][1], nb[1][0], nb[2][1], nb[2][0], nb[3][1], nb[3][0], nb[4][1], nb[4][0], nb[5][1], nb[5][0], nb[6][1], nb[6][0], nb[7][1], nb[7][0], nb[8][1], nb[8][0], nb[9][1], nb[9][0], len(rows)) +
          "| id | file | change | needs | caught by |\n|---|---|---|---|---|\n" + "\n".join(rows) + "\n" + hand)
 p = os.path.join(root, "DESIGN.md")
 s = open(p).read()
